@@ -61,7 +61,7 @@ func vhCheckMapLeaf(m *MapDataSlab, wantFirstTag uint64, wantCount int, what str
 func VH_C05_MapLeafSplit() {
 	nmax := vhParam("n", 6)
 	T := vhRange32("T", 256, 32768)
-	vhSetThreshold(T)
+	vhSetThresholdSym(T)
 	n := 2 + vhChoose("n", nmax-1)
 	storage := vhNewBasicStorage()
 	id, _ := storage.GenerateSlabID(vhAddr(1))
@@ -97,7 +97,7 @@ func VH_C05_MapLeafSplit() {
 func VH_C05_MapLeafRebalance() {
 	nmax := vhParam("n", 3)
 	T := vhRange32("T", 256, 32768)
-	vhSetThreshold(T)
+	vhSetThresholdSym(T)
 	nl := 1 + vhChoose("nl", nmax)
 	nr := 1 + vhChoose("nr", nmax)
 	var prev uint64
